@@ -121,7 +121,8 @@ class Runner:
         p = self.sc["programs"][i]
         mod = self.mods[i]
         tag = op["inst"]
-        cls = getattr(mod, p["name"])
+        pn = render.pyname(p)
+        cls = getattr(mod, pn)
         mk = (p.get("model") or {}).get("kind", "attr")
         field = (p.get("model") or {}).get("field", "state")
         ent = self.objs.get(tag) if op.get("keep_model") else None
@@ -132,7 +133,7 @@ class Runner:
         elif mk == "none" or not op.get("model", True):
             model = None
         else:
-            model = getattr(mod, p["name"] + "_model")()
+            model = getattr(mod, pn + "_model")()
             model.__dict__["_sim_tag"] = tag
             model.__dict__["_sim_role"] = "model"
         ent["model"] = model
@@ -140,7 +141,7 @@ class Runner:
         for role in op.get("listeners", []):
             o = ent["listeners"].get(role)
             if o is None:
-                o = getattr(mod, p["name"] + "_" + role)()
+                o = getattr(mod, pn + "_" + role)()
                 o._sim_tag = tag
                 o._sim_role = role
                 ent["listeners"][role] = o
@@ -164,7 +165,7 @@ class Runner:
         ent.pop("sm", None)
         try:
             if op.get("mixin"):
-                model = getattr(mod, p["name"] + "_model")()
+                model = getattr(mod, pn + "_model")()
                 sm = model.statemachine
                 ent["model"] = model
                 ent["mixin"] = True
@@ -297,7 +298,7 @@ class Runner:
         for role in op["listeners"]:
             o = ent["listeners"].get(role)
             if o is None:
-                o = getattr(mod, p["name"] + "_" + role)()
+                o = getattr(mod, render.pyname(p) + "_" + role)()
                 o._sim_tag = op["inst"]
                 o._sim_role = role
                 ent["listeners"][role] = o
